@@ -59,7 +59,10 @@ def run(ck, P):
     okt = bool(calls)
     for e in calls:
         fc = X.facts(ts, e)
-        okt = okt and has(fc, "m_mod_is(mod, %d)" % LIVE) and any(a.startswith("(sub = fetch_sub(mod, ") and p for (a, p) in fc) and S(e.args[2]) == "mod"
+        kn = S(e.args[1])
+        tested = any((a.startswith("(%s = fetch_sub(mod, " % kn) or a == kn) and p for (a, p) in fc)
+        vs = {x for x in rules.value_sources(ts, kn) if x not in ("NULL", "0")}
+        okt = okt and has(fc, "m_mod_is(mod, %d)" % LIVE) and tested and bool(vs) and all(x.startswith("fetch_sub(mod, ") for x in vs) and S(e.args[2]) == "mod"
     ck.ob("C02.1-ELIGIBLE", ts.site("publish fan-out"), okt, "tell_if offered under RUNNING|PAUSED and a found subscription: %s" % okt)
 
     bound = []
@@ -249,15 +252,27 @@ def run(ck, P):
                     null_stores += 1
     ck.need(null_stores >= 2, "ps_priv_t templates with sub = NULL vanished (the field is no longer nullable?)")
     nloads = 0
+
+    def _is_sub_load(n):
+        return n is not None and n["k"] == "member" and n["field"] == "sub" and n.get("rec") == "ps_priv_t"
+
+    def _copies(f):
+        """locals that hold a copy of a ps_priv_t.sub load (explaining variables): as nullable as the field itself"""
+        out = {}
+        for d in f.events():
+            if d.kind in ("decl", "assign") and d.lhs is not None and d.rhs is not None and strip(d.lhs)["k"] == "var" and _is_sub_load(strip(d.rhs)):
+                out[strip(d.lhs)["name"]] = S(d.rhs)
+        return out
     for f in P.funcs:
         if not f.unit.startswith("Lib/core/"):
             continue
+        cp = _copies(f)
         for ev in f.events():
             if ev.kind != "call":
                 continue
             for i, a in enumerate(ev.args):
                 sa = strip(a)
-                if sa is not None and sa["k"] == "member" and sa["field"] == "sub" and sa.get("rec") == "ps_priv_t":
+                if sa is not None and (_is_sub_load(sa) or (sa["k"] == "var" and sa.get("name") in cp)):
                     nloads += 1
                     ck.analysed(f)
                     facts = X.facts(f, ev)
@@ -284,7 +299,7 @@ def run(ck, P):
             for nnode in walk(e):
                 if nnode.get("k") == "member" and nnode["arrow"]:
                     b = strip(nnode["base"])
-                    if b is not None and b["k"] == "member" and b["field"] == "sub" and b.get("rec") == "ps_priv_t":
+                    if b is not None and (_is_sub_load(b) or (b["k"] == "var" and b.get("name") in _copies(f))):
                         nloads += 1
                         facts = X.facts(f, ev)
                         okd = has(facts, S(b)) or _guarded_in_expr(e, S(b))
